@@ -35,7 +35,7 @@ META = dict(
                 "(1,0),(0,2),(1,1),(2,1); resampling targets without centre-on-face ties; rotations k in {-1,1,2} (quick) / "
                 "{-5,-2,-1,0,1,2,3,4} (thorough). Values of derivatives, phase and transcendental ufuncs are outside this model "
                 "(validity and shape only). The 1e-8 band of valid='norm' is exercised in channel T only, through value classes "
-                "zero / tiny (< 0.5e-8) / big (> 2e-8); lengths inside the band are unconstrained. Calls that raise where the "
+                "zero / tiny (< 0.999e-8) / big (> 1.001e-8) of the LENGTH (also vectors whose components are each below 1e-8); lengths inside the hair-wide band are unconstrained. Calls that raise where the "
                 "model expects a result are counted in the evidence notes, not judged (C03/C07/C12 own those clauses). "
                 "Trusted: TLC, harness/tlaval.py, numpy.shares_memory, h5py/VTK as used by the library."
                 " Padding with every np.pad mode and option (constant_values, statistic modes with stat_length, linear_ramp) is decided by the stage PadOpt (spec/PadOpt.tla, harness/padopt.py): the mask must be padded exactly as the data read as 0/1 numbers would be."),
